@@ -224,11 +224,14 @@ Inductive sstep (s : sys) : slabel -> sys -> Prop :=
     sstep s (LWorkEnd id o)
       (mkSys (sy_h s) (sy_now s) (sy_last s) (sy_err s) (sy_pc s) (sy_accepted s) (str_del id (sy_running s))
              (sy_results s ++ [(id, o)]) (sy_starts s) (sy_reports s) (sy_retry s))
-| SWorkEndNotFound id p : str_mem id (sy_running s) = false ->
+(* a worker reports without ever starting the work function: unknown work id (ONotFound), or the dispatch
+   context was cancelled between the fetch and the start (OCanceled) *)
+| SWorkEndNotFound id o p : str_mem id (sy_running s) = false ->
     List.find (fun x => String.eqb (fst x) id) (sy_accepted s) = Some p ->
-    sstep s (LWorkEnd id ONotFound)
+    o = ONotFound \/ o = OCanceled ->
+    sstep s (LWorkEnd id o)
       (mkSys (sy_h s) (sy_now s) (sy_last s) (sy_err s) (sy_pc s) (remove_first id (sy_accepted s)) (sy_running s)
-             (sy_results s ++ [(id, ONotFound)]) (sy_starts s) (sy_reports s) (sy_retry s))
+             (sy_results s ++ [(id, o)]) (sy_starts s) (sy_reports s) (sy_retry s))
 (* scheduler calls that only move the program counter / the hook / the timer *)
 | SCtl c f hf r h' last' err' pc' :
     sy_pc s <> PIdle -> (forall k t, sy_pc s <> PDisp2 k t) -> hs_repo h' = repo_of s -> boring pc' ->
@@ -396,7 +399,7 @@ Proof.
     apply gtime_eqb_eq in E1. apply task_eqb_eq in E2. subst. eapply SWorkStart; eauto.
   - (* LWorkEnd *)
     destruct (str_mem id (sy_running s)) eqn:M; [inv H; apply SWorkEnd; auto|].
-    destruct o; try discriminate. destruct (List.find _ (sy_accepted s)) eqn:F; inv H. eapply SWorkEndNotFound; eauto.
+    destruct o; try discriminate; (destruct (List.find _ (sy_accepted s)) eqn:F; inv H; eapply SWorkEndNotFound; eauto).
   - destruct (_ && _); inv H. constructor.
   - destruct (sy_pc s) eqn:P; try discriminate. destruct (tm_pending _); inv H. apply SFire; auto.
   - discriminate.
